@@ -125,6 +125,9 @@ def mode_ignored_somewhere(f, p):
 
 
 def run(ctx):
+    # the segment functions read annotation arrays of equal length: a model taken out of a stack must not share the stack's table
+    from .C01 import model_table_rule
+    model_table_rule(ctx, "R6.model-has-its-own-table")
     # every view of this property is laid over array_length() atoms and bonds.get_atom_count() atoms: both agree with the arrays
     from .C01 import length_rules
     length_rules(ctx, "R6")
@@ -225,17 +228,28 @@ def run(ctx):
     ctx.floor("mode-returns", n_mode, 2)
 
     # ---------------- R5 segment lookup --------------------------------------
+    from ..program import expand_sibling_calls
     for name in ("get_segment_masks", "get_segment_starts_for", "get_segment_positions"):
-        f = seg.func(name)
+        # (one of the three may delegate validation and look-up to another: judged with that call written out)
+        f = expand_sibling_calls(seg, name, ("get_segment_masks", "get_segment_starts_for", "get_segment_positions"))
         ss = [c for c in calls(f) if call_name(c) == "np.searchsorted"]
-        ok = len(ss) == 1 and [ast.unparse(a) for a in ss[0].args] == ["starts", "indices"] \
+        def is_indices(a):
+            # the parameter itself, or the local that holds np.asarray(indices) (under whatever name a written-out sibling gave it)
+            return ast.unparse(a) == "indices" or isinstance(a, ast.Name) and any(
+                isinstance(st, ast.Assign) and isinstance(st.targets[0], ast.Name) and st.targets[0].id == a.id
+                and ast.unparse(st.value) == "np.asarray(indices)" for st in ast.walk(f))
+        ok = len(ss) == 1 and len(ss[0].args) == 2 and ast.unparse(ss[0].args[0]) == "starts" and is_indices(ss[0].args[1]) \
             and [(k.arg, ast.unparse(k.value)) for k in ss[0].keywords] == [("side", "'right'")]
         minus1 = any(isinstance(n, ast.BinOp) and isinstance(n.op, ast.Sub) and n.left is ss[0]
                      and isinstance(n.right, ast.Constant) and n.right.value == 1 for n in walk_local(f)) if ss else False
-        ctx.ob("R5.segment-lookup", SEG, name, "np.searchsorted(starts, indices, side='right') - 1", ok and minus1,
-               "the segment of an atom is the last start <= index", f.lineno)
         # both range tests are guards (they raise) and both precede the lookup; `length` is the exclusive stop
         sm_ = summarize(f)
+        # (in terms of the function's inputs when the result can be composed - whatever the locals are called)
+        from ..exprnorm import contains_expr as _contains
+        composed = sm_.result is not None and not sm_.unsupported and \
+            _contains(sm_.result, "np.searchsorted(starts[:-1], np.asarray(indices), side='right') - 1")
+        ctx.ob("R5.segment-lookup", SEG, name, "np.searchsorted(starts, indices, side='right') - 1", (ok and minus1) or composed,
+               "the segment of an atom is the last start <= index", f.lineno)
         gtxt = [canon(g_) for g_ in sm_.guards]
         lo = spec("np.any(np.asarray(indices) < 0)") in gtxt or spec("(np.asarray(indices) < 0).any()") in gtxt
         hi = spec("(np.asarray(indices) >= starts[-1]).any()") in gtxt
